@@ -93,8 +93,8 @@ def run_unit(ctx: Ctx, qualname: str) -> None:
         cc0 = interp.class_contract(interp.unit_self)
         for cl in cc0.task_inv.get(fc.task, []):
             interp.assume_clause(cl, {"self": interp.unit_self}, None, mi, f"task invariant {cl.name}")
-    if interp.unit_self is not None and not is_init:
-        interp.assume_monitor(interp.unit_self)
+    # (a monitor invariant is NOT assumed at entry: another task may hold the lock at that moment;
+    #  it is assumed when the unit acquires the lock)
     if ctx.check_full() != z3.sat:
         ctx.covers[f"{unit}.entry"] = False
         raise PathEnd("precondition unsatisfiable")
